@@ -17,7 +17,7 @@
 From Utp Require Import Base.Prelude Wire.SeqNr Wire.Header Rtt.Rtte Mtu.SegSizes Mtu.SegSizes_Proofs
   Rx.Rx Tx.Ring Tx.Segments Tx.Segments_Proofs Conn.Recovery Conn.Msg Conn.VSockRec Conn.VSock
   Conn.VSockRun Conn.VObs Conn.C10_Pred Conn.C05_Pred Conn.C14C08_Pred Conn.VSock_Lemmas Conn.VSock_LemmasStep
-  Conn.C14_StepLemmas Conn.C17_StepLemmas Conn.C17_Step.
+  Conn.C14_StepLemmas Conn.C17_StepLemmas Conn.C17_Step Conn.VSock_Inv Conn.C10_Proofs.
 
 Section WithCC.
 Context {CC : Type} (cci : cc_iface CC).
@@ -1123,4 +1123,63 @@ Proof.
   - eapply c14_inv_vsock_new; exact H0.
 Qed.
 
+(* the invariant is kept by every event and makes both predicates true *)
+Theorem c14_step : forall c (s : vsock) o,
+  c14_inv c s ->
+  c14_inv c (vstep_state cci s o) /\
+  c14_datagram_ok c (fstep_of cci s o) = true /\ c14_segments_ok c (fstep_of cci s o) = true.
+Proof.
+  intros c s o H. split; [apply c14_inv_vstep; exact H|].
+  split; [apply c14_datagram_ok_step|apply c14_segments_ok_step]; exact H.
+Qed.
+
 End WithCC.
+
+(* ------------------------------------------------------------------ the clauses are exercised by
+   reachable steps (link MTU 1500, path limit 1000): the first poll cuts a 991-byte probe, the
+   transport answers EMSGSIZE, the probe is popped (max_ss 1452 -> 990), the poll restarts and cuts
+   and sends a 760-byte probe; after the acknowledgements the proven size is 760 and ordinary
+   segments of 760 bytes are cut, followed by the next probe *)
+Definition c14_ops : list vop :=
+  [VoSetLimit (Some 1000); VoWrite (repeat 0 (Z.to_nat 5000)); VoPoll [];
+   VoDeliver (wmsg ST_STATE 1 101 0); VoPoll []; VoDeliver (wmsg ST_STATE 1 104 0); VoPoll []].
+
+Definition new_probe_cut (st : fstep) : bool :=
+  match fs_result st with
+  | FrPoll PollPending _ _ _ =>
+      existsb (fun g => fg_probe g && (f_seg_offset (fs_pre st) <=? fg_abs g) && (f_mss (fs_post st) <? fg_size g))
+              (f_segs (fs_post st))
+  | _ => false
+  end.
+
+Definition new_ordinary_cut (st : fstep) : bool :=
+  match fs_result st with
+  | FrPoll PollPending _ _ _ =>
+      existsb (fun g => negb (fg_probe g) && (f_seg_offset (fs_pre st) <=? fg_abs g)) (f_segs (fs_post st))
+  | _ => false
+  end.
+
+Definition probe_failed_step (c : vconfig) (st : fstep) : bool :=
+  (f_max_ss (fs_pre st) =? ceiling_of (ss_config_of c)) && (f_max_ss (fs_post st) <? ceiling_of (ss_config_of c)).
+
+Definition big_datagram (c : vconfig) (st : fstep) : bool :=
+  match fs_result st with
+  | FrPoll _ pkts _ _ => existsb (fun p => floor_of (ss_config_of c) <? fq_plen p) pkts
+  | _ => false
+  end.
+
+Lemma c14_nonvacuous :
+  exists w cfg ops,
+    vconfig_ok cfg = true /\ Forall op_msg_ok ops /\
+    existsb new_probe_cut (wtrace w cfg ops) = true /\
+    existsb new_ordinary_cut (wtrace w cfg ops) = true /\
+    existsb (probe_failed_step cfg) (wtrace w cfg ops) = true /\
+    existsb (big_datagram cfg) (wtrace w cfg ops) = true /\
+    forallb (c14_datagram_ok cfg) (wtrace w cfg ops) = true /\
+    forallb (c14_segments_ok cfg) (wtrace w cfg ops) = true.
+Proof.
+  exists 1048576, (wcfg 1048576), c14_ops.
+  split; [vm_compute; reflexivity|].
+  split; [repeat constructor|].
+  repeat split; vm_compute; reflexivity.
+Qed.
